@@ -43,7 +43,7 @@ const DROP: &[&str] = &[
     "version", "serial", "hash", "validity", "since", "last_key_change", "revision", "revocations",
     "expires", "this_update", "next_update", "time", "timestamp", "last_exchange", "last_success",
     "manifest", "crl", "id", "id_cert", "session", "cmds", "tasks", "ret", "rrdp", "not_after",
-    "not_before", "user_agent", "next_class_name", "old_repo", "ta_signer", "ta_proxy", "marker",
+    "not_before", "user_agent", "now", "t0", "next_class_name", "old_repo", "ta_signer", "ta_proxy", "marker",
 ];
 
 fn erase_tokens(s: &str) -> String {
@@ -241,17 +241,21 @@ fn fault_line(m: &mut Main, mode: &str, domain: &str, which: &str, op: &str, out
         n => vec![n.parse().expect("cut")],
     };
     for n in cuts {
+        let t_start = std::time::Instant::now();
+        let tick = |what: &str| { if std::env::var("FAULT_TIMING").is_ok() { eprintln!("  [{:>6} ms] {what}", t_start.elapsed().as_millis()); } };
         let f = fork(m.sys.scratch(), "fault-cut");
+        tick("forked");
         let mut s = sys::Sys::open(f, true, "cut-disk", &m.cfg, false);
+        tick("opened");
         let _ = obs_json(&mut s);
+        tick("observed");
         arm(domain, mode, n);
         let (_, o1) = s.exec(op);
+        tick("op done");
         let ret1 = serde_json::from_str::<Value>(&o1).ok().and_then(|v| v.get("ret").and_then(|r| r.as_str()).map(|s| s.to_string())).unwrap_or_default();
-        if mode == "crash" {
-            // the process dies: nothing else happens in this instance
-        } else {
-            s.exec("pump");
-        }
+        // the scheduler keeps running until the cut (crash) / after the failed write (once)
+        s.exec("pump");
+        let sched_exits = krill::verif::sched::take_exits();
         let fired = disarm(domain);
         let mut problems;
         let after;
@@ -259,6 +263,7 @@ fn fault_line(m: &mut Main, mode: &str, domain: &str, which: &str, op: &str, out
             // restart on the same directory
             let scratch = s.into_scratch();
             let mut s2 = sys::Sys::open(scratch, true, "restart-disk", &m.cfg, false);
+            tick("reopened");
             problems = loads(&s2);
             if let Err(e) = s2.startup() { problems.push(format!("startup:{e}")); }
             after = obs_json(&mut s2);
@@ -273,19 +278,22 @@ fn fault_line(m: &mut Main, mode: &str, domain: &str, which: &str, op: &str, out
         let state_changed = proj(&before, "cas", &ents) != proj(&after, "cas", &ents);
         let objects_changed = proj(&before, "objects", &ents) != proj(&after, "objects", &ents);
         // background tasks, then the interrupted request again (unless it was acknowledged)
+        tick("judged");
         s.exec("pump");
+        tick("pumped");
         let mut resubmit = "skipped".to_string();
         if !ret1.starts_with("ok") {
             let (_, o2) = s.exec(op);
             resubmit = serde_json::from_str::<Value>(&o2).ok().and_then(|v| v.get("ret").and_then(|r| r.as_str()).map(|s| s.to_string())).unwrap_or_default();
             s.exec("pump");
         }
+        tick("resubmitted");
         let fin = semantic(&obs_json(&mut s));
         let same = fin == twin;
         let diff = if same { Value::Null } else { json!(first_diff(&twin, &fin, "")) };
         let line = format!("faultcut {mode} {domain} {n} :: {op}");
         let obs = json!({
-            "muts": muts, "cut": n, "fired": fired, "ret": ret1, "twin_ret": twin_ret, "load_problems": problems,
+            "muts": muts, "cut": n, "fired": fired, "sched_exits": sched_exits, "ret": ret1, "twin_ret": twin_ret, "load_problems": problems,
             "log_has_cmd": log_has > 0, "state_changed": state_changed, "objects_changed": objects_changed,
             "resubmit": resubmit, "converged": same, "diff": diff,
         });
